@@ -76,6 +76,19 @@ class C18Check(Check):
             self.twins[sig] = {"op": t, "ev": evs[0] if evs else {}}
         return self.twins[sig]
 
+    def baseline_of(self, op: Dict[str, Any]) -> Optional[Dict[str, Any]]:
+        """The same run without the fault, alone in a pristine interpreter."""
+        if not op.get("fault"):
+            return None
+        t = {k: v for k, v in op.items() if k not in ("uid", "fault")}
+        sig = "B|" + cfg_sig(t) + "|" + str(t["argv"])
+        if sig not in self.twins:
+            t["envelope"] = True
+            res = self.runner.run({"ops": [t]}, 0, timeout=600)
+            evs = res.get("events", [])
+            self.twins[sig] = {"op": t, "ev": evs[0] if evs else {}}
+        return self.twins[sig]
+
     def judge(self, spec: Dict[str, Any], res: Dict[str, Any]) -> Optional[Tuple[int, List[Dict[str, Any]]]]:
         if "harness_error" in res:
             raise HarnessError("session harness error: " + res["harness_error"] + "\n" + res.get("trace", ""))
@@ -83,7 +96,8 @@ class C18Check(Check):
         for j, op in enumerate(spec["ops"]):
             if op["op"] != "cli" or j >= len(evs):
                 continue
-            mms = compare.envelope_oracle(op, evs[j], self.api_ref(op["c"]), self.twin_of(op))
+            base = self.baseline_of(op) if evs[j].get("fault_fired") else None
+            mms = compare.envelope_oracle(op, evs[j], self.api_ref(op["c"]), self.twin_of(op), base)
             if mms:
                 return j, mms
         return None
@@ -194,10 +208,18 @@ def plan(chk: C18Check, rng: random.Random) -> List[Dict[str, Any]]:
             chk.c18["k_enumerated"][f"{cid}:{','.join(dets) if dets else 'default'}"] = n
         else:
             ks = sorted(set([1, 2, max(1, n // 2), n] + [rng.randrange(1, n + 1) for _ in range(2 if quick else 8)]))
+        core = {1, max(1, n // 2), n}
         for k in ks:
-            add({"op": "cli", "c": cid, "argv": _argv("-", dets, None), "fault": {"kind": "detector", "k": k}})
+            # the accessors raise a bare TealerException(): both flavours at the core points,
+            # alternating elsewhere
+            flavours = [False, True] if (k in core and len(ks) < 100) else [k % 2 == 0]
+            for bare in flavours:
+                f = {"kind": "detector", "k": k}
+                if bare:
+                    f["bare"] = True
+                add({"op": "cli", "c": cid, "argv": _argv("-", dets, None), "fault": f, "expect_dets": dets})
         for k in ks[:: max(1, len(ks) // 3)][:3]:
-            add({"op": "cli", "c": cid, "argv": _argv("out.json", dets, None), "fault": {"kind": "detector", "k": k}})
+            add({"op": "cli", "c": cid, "argv": _argv("out.json", dets, None), "fault": {"kind": "detector", "k": k, "bare": k % 2 == 1}, "expect_dets": dets})
     return ops
 
 
@@ -206,7 +228,10 @@ RULE = (
     "{no filter, seeded --filter-paths} with: no fault; cli misuse (unknown / duplicated detector name); TealerException "
     "at the k-th call event inside tealer.detectors.* before handle_output (k in {1,2,N/2,N}+seeded sample in quick; in "
     "thorough all k=1..N+1 for six selections); every run judged by: success == (error is None) == (main() saw no error), "
-    "error reaching main() is reported, count == len(paths), file payload == stdout payload, error-free result == API to_json; "
+    "error reaching main() is reported, an injected error caught earlier is either reported or the run delivers the complete "
+    "fault-free result, count == len(paths), file payload == stdout payload, error-free result == API to_json; injected "
+    "TealerExceptions come with a message and bare (as the context accessors raise them); additional sessions perform 2-5 "
+    "CLI runs in one interpreter and judge each envelope the same way; "
     "distinct+non-trivial = distinct run configurations whose envelope carries an error"
 )
 
@@ -217,11 +242,36 @@ def run(tier: str, seed: int, workers: int) -> int:
         chk.reference_phase(need_sites=False)
         rng = random.Random("c18:%d" % seed)
         ops = plan(chk, rng)
-        log(f"[c18] planned runs={len(ops)} t={time.time()-chk.t0:.0f}s")
+        log(f"[c18] planned single runs={len(ops)} t={time.time()-chk.t0:.0f}s")
         hs = chk.ctx.hashseeds[:3] or [0]
         specs = []
         for i, op in enumerate(ops):
             specs.append({"ops": [op], "hashseed": hs[i % len(hs)], "index": i})
+        # several CLI runs in one interpreter (a service, a notebook, a test runner calling main()):
+        # the envelope of each must still satisfy the oracle
+        plain = [o for o in ops if not o.get("fault")]
+        n_multi = int(os.environ.get("SIM_C18_MULTI", 48 if tier == "quick" else 600))
+        for m in range(n_multi if plain else 0):
+            k = rng.randrange(2, 6)
+            seq = []
+            first = rng.choice(plain)
+            seq.append(first)
+            for _ in range(k - 1):
+                r = rng.random()
+                same_sel = [o for o in plain if o["argv"][5:] == first["argv"][5:] and o["c"] != first["c"]]
+                same_c = [o for o in plain if o["c"] == first["c"]]
+                if r < 0.4 and same_sel:
+                    seq.append(rng.choice(same_sel))
+                elif r < 0.7 and same_c:
+                    seq.append(rng.choice(same_c))
+                else:
+                    seq.append(rng.choice(plain))
+            mops = []
+            for u, o in enumerate(seq):
+                o2 = dict(o)
+                o2["uid"] = u
+                mops.append(o2)
+            specs.append({"ops": mops, "hashseed": rng.choice(hs), "index": len(specs), "multi": True})
         jobs = [(i, {"ops": s["ops"], "immut": False}, s["hashseed"]) for i, s in enumerate(specs)]
         done = 0
         for i, res in chk.runner.run_many(jobs, timeout=600):
@@ -231,12 +281,17 @@ def run(tier: str, seed: int, workers: int) -> int:
             chk.stats["ops"] += 1
             chk.stats["op_kinds"]["cli"] = chk.stats["op_kinds"].get("cli", 0) + 1
             chk.stats["hashseeds"].add(spec["hashseed"])
-            if not evs:
-                chk.harness_problems.append(f"run {i} produced no event: {res.get('died') or res.get('timed_out')}")
+            if len(evs) < len(spec["ops"]):
+                chk.harness_problems.append(f"run {i} produced {len(evs)} of {len(spec['ops'])} events: {res.get('died') or res.get('timed_out')}")
                 continue
-            chk.stats["traced_call_events"] += evs[0].get("events", 0)
-            chk.account_c18(spec["ops"][0], evs[0])
-            chk.stats["compared_ops"] += 1
+            for op_, ev_ in zip(spec["ops"], evs):
+                chk.stats["traced_call_events"] += ev_.get("events", 0)
+                chk.account_c18(op_, ev_)
+                chk.stats["compared_ops"] += 1
+            if spec.get("multi"):
+                chk.c18["multi_run_sessions"] = chk.c18.get("multi_run_sessions", 0) + 1
+                chk.stats["ops"] += len(evs) - 1
+                chk.stats["op_kinds"]["cli"] += len(evs) - 1
             v = chk.judge(spec, res)
             if v is not None:
                 chk.report(spec, v[0], v[1])
@@ -248,7 +303,7 @@ def run(tier: str, seed: int, workers: int) -> int:
                 chk.samples.append({"run": chk.brief(spec["ops"][0]), "fault_at": evs[0].get("fault_at"), "caught_in": evs[0].get("fault_caught_in"), "envelope": {k: (v if k != "result" else f"<{len(v)} results>") for k, v in (env or {}).items()}})
             done += 1
             if done % 200 == 0:
-                log(f"[c18] runs={done}/{len(ops)} t={time.time()-chk.t0:.0f}s")
+                log(f"[c18] sessions={done}/{len(specs)} t={time.time()-chk.t0:.0f}s")
         st = chk.c18
         chk.stats["nontrivial_sessions"] = st["error_envelopes"]
         extra = {
@@ -262,6 +317,7 @@ def run(tier: str, seed: int, workers: int) -> int:
             "misuse_runs": st["misuse_runs"],
             "file_mode_runs": st["file_mode_runs"],
             "filtered_runs": st["filtered_runs"],
+            "sessions_with_several_cli_runs_in_one_interpreter": st.get("multi_run_sessions", 0),
             "selections_with_complete_k_enumeration": st["k_enumerated"],
             "exhaustive": bool(tier == "thorough" and st["complete"] and st["k_enumerated"]),
         }
